@@ -654,6 +654,8 @@ def run(tier, seed):
     check_other_kex(st)
     check_reply_f(st)
     par.pmap(work_values, _vc, stats=st, chunk=16)
+    from props import delivery as _DL
+    par.pmap(_DL.work, _DL.tasks(tier), extra=(('sizes',),), stats=st, chunk=12)
     vcases = []
     for bits in H.pick(sizes, seed, 10 if tier == 'quick' else 60):
         vcases.append({'label': 'rsa %d' % bits, 'opts': ['-n', '-j'] if bits % 128 else ['-n', '-v'],
